@@ -8,3 +8,33 @@ package internal
 //@ requires a.MinInclusive <= a.MaxInclusive && b.MinInclusive <= b.MaxInclusive
 //@ ensures result <==> exists h uint32 :: a.MinInclusive <= h && h <= a.MaxInclusive && b.MinInclusive <= h && h <= b.MaxInclusive
 //@ modifies nothing
+
+//@ define ovl(a HashRange, b HashRange) bool = a.MinInclusive <= b.MaxInclusive && a.MaxInclusive >= b.MinInclusive
+
+// The client's shard map: keyed by shard id, every range non-empty, no two shards
+// overlapping (a key hashes into at most one shard).
+//@ define shardsOk(s *shardManagerImpl) bool = s.shards != nil && (forall a int64 :: inmap(s.shards, a) ==> s.shards[a].HashRange.MinInclusive <= s.shards[a].HashRange.MaxInclusive && s.shards[a].Id == a) && (forall a int64, b int64 :: inmap(s.shards, a) && inmap(s.shards, b) && a != b ==> !ovl(s.shards[a].HashRange, s.shards[b].HashRange))
+
+// Applying an assignment update keeps the map overlap-free and installs every shard of
+// the update: a new shard evicts every shard it overlaps. (Scope: the shards of one
+// update do not overlap each other, and a shard id that is already known keeps its
+// range — ranges of an id never change in oxia.)
+//
+//@ func shardManagerImpl.update(s, updates)
+//@ property C18
+//@ requires shardsOk(s) && s.logger != nil && s.updatedWg != nil
+//@ requires forall i int :: 0 <= i && i < len(updates) ==> updates[i].HashRange.MinInclusive <= updates[i].HashRange.MaxInclusive
+//@ requires forall i int, j int :: 0 <= i && i < j && j < len(updates) ==> updates[i].Id != updates[j].Id && !ovl(updates[i].HashRange, updates[j].HashRange)
+//@ requires forall i int :: 0 <= i && i < len(updates) && inmap(s.shards, updates[i].Id) ==> s.shards[updates[i].Id].HashRange.MinInclusive == updates[i].HashRange.MinInclusive && s.shards[updates[i].Id].HashRange.MaxInclusive == updates[i].HashRange.MaxInclusive
+//@ loop 0 invariant shardsOk(s) && s.shards == old(s.shards)
+//@ loop 0 invariant forall i int :: 0 <= i && i < len(updates) && inmap(s.shards, updates[i].Id) ==> s.shards[updates[i].Id].HashRange.MinInclusive == updates[i].HashRange.MinInclusive && s.shards[updates[i].Id].HashRange.MaxInclusive == updates[i].HashRange.MaxInclusive
+//@ loop 0 invariant forall i int :: 0 <= i && i <= rangeindex ==> inmap(s.shards, updates[i].Id)
+//@ loop 0 modifies mapof(s.shards), fresh
+//@ loop 1 invariant shardsOk(s) && s.shards == old(s.shards) && !inmap(s.shards, update.Id)
+//@ loop 1 invariant forall i int :: 0 <= i && i < len(updates) && inmap(s.shards, updates[i].Id) ==> s.shards[updates[i].Id].HashRange.MinInclusive == updates[i].HashRange.MinInclusive && s.shards[updates[i].Id].HashRange.MaxInclusive == updates[i].HashRange.MaxInclusive
+//@ loop 1 invariant forall i int :: 0 <= i && i <= rangeindex ==> inmap(s.shards, updates[i].Id)
+//@ loop 1 invariant forall k int64 :: seen(1, k) && inmap(s.shards, k) ==> !ovl(update.HashRange, s.shards[k].HashRange)
+//@ loop 1 modifies mapof(s.shards), fresh
+//@ ensures shardsOk(s)
+//@ ensures forall i int :: 0 <= i && i < len(updates) ==> inmap(s.shards, updates[i].Id) && s.shards[updates[i].Id].HashRange.MinInclusive == updates[i].HashRange.MinInclusive && s.shards[updates[i].Id].HashRange.MaxInclusive == updates[i].HashRange.MaxInclusive
+//@ modifies mapof(s.shards)
